@@ -35,6 +35,28 @@ def main(tier: str) -> int:
                           f"consecutive quads with equal graph names did not travel under one graph start: {aud['rg']}", case.replay)
         if len(samples) < 3:
             samples.append({"key": case.key, "audit": aud})
+    # regrouping on long runs: runs of 1200 / 3 / 2600 consecutive quads with equal graph names must travel under ONE graph start each
+    from .. import impl, terms, tlc, wire  # noqa: PLC0415
+    I_ = lambda x: ("iri", x)  # noqa: E731
+    runs_ = [(I_("http://g/1"), 1200), (("dg",), 3), (("bn", "g2"), 2600), (I_("http://g/1"), 5)]
+    quads = [(I_(f"http://e/s{i % 9}"), I_("http://e/p"), ("lit", str(i), "", ""), g) for g, n_ in runs_ for i in range(n_)]
+    rtraces, rkeys = [], []
+    for integ in ("generic", "rdflib"):
+        if integ == "rdflib":
+            continue                     # the rdflib path rebuilds a Dataset (one graph per name by construction): no sequence regrouping to audit
+        cfg = impl.default_cfg(integ=integ, entry="stream_frames", sclass="graph", ltype=2, frame_size=250, preset=(4000, 150, 32), gen=False, star=False, as_sink=False)
+        try:
+            data = impl.serialize(cfg, quads)
+            frames = wire.dec_delimited(data)
+        except Exception as ex:  # noqa: BLE001
+            run.violation({"clause": "serializer-raised", "universe": "long-graph-runs"}, f"{type(ex).__name__}: {ex}", {"runs": [n for _, n in runs_]})
+            continue
+        starts = sum(1 for fr in frames for r_ in fr["rows"] if r_["r"] == "gs")
+        judged += 1
+        if starts != len(runs_):
+            run.violation({"clause": "rg", "universe": "long-graph-runs", "entry": "stream_frames", "integ": integ},
+                          f"runs of {[n for _, n in runs_]} consecutive quads with equal graph names were written under {starts} graph starts instead of {len(runs_)}",
+                          {"runs": [n for _, n in runs_], "graph_starts": starts})
     if tot["entries"] == 0:
         env.machinery_failure("C19: no lookup entries seen in any judged stream (vacuous)")
     return run.finish({
